@@ -667,3 +667,22 @@ def extract_handles(backend):
                     unwrapped += 1     # a raw library node is handed to Python
     return dict(backend=backend, init_refs=init_refs, dealloc_derefs=dealloc_derefs,
                 dealloc_guarded=bool(guarded), unwrapped_returns=unwrapped, methods=methods)
+
+
+# =================== Part C: computed-table tags ===================
+_CACHE_CALL = re.compile(r'\b(cuddCacheLookup\w*|cuddCacheInsert\w*)\s*\(\s*[\w\.]+\s*,\s*([\w\.]+)\s*,')
+
+
+def extract_cache_tags(backend):
+    """Per function: the tags under which it reads and writes CUDD's computed table."""
+    path = os.path.join(REPO, BACKENDS[backend])
+    out = []
+    for name, cls, lineno, lines in functions(path):
+        code = '\n'.join(re.sub(r'#.*$', '', x) for x in strip_docstring(lines))
+        code = re.sub(r'\s+', ' ', code)
+        lookups, inserts = [], []
+        for m in _CACHE_CALL.finditer(code):
+            (lookups if 'Lookup' in m.group(1) else inserts).append(m.group(2))
+        if lookups or inserts:
+            out.append(dict(where='%s:%s:%d' % (backend, name, lineno), lookups=lookups, inserts=inserts))
+    return out
